@@ -102,13 +102,14 @@ func (f *Frame) doCall(st *State, site ssa.CallInstruction, common *ssa.CallComm
 			}
 		}
 		f.panicSite(st, site.(ssa.Instruction), "nil", Eq(recv.Tag, IntLitI(0)), "method call on nil interface")
-		if why, ok := c.W.externFrames[name]; ok && c.W.externPure[name] {
+		ek, isExt := c.W.externKey(f.scopePkg(), name)
+		if why := c.W.externFrames[ek]; isExt && c.W.externPure[ek] {
 			c.W.noteAssumed("extern " + name + " is a pure accessor (its result is a function of the receiver and arguments): " + why)
 			if r := c.pureExtern(name, recv, args, resultType(common)); r != nil {
 				return r
 			}
 		}
-		if why, ok := c.W.externFrames[name]; ok {
+		if why := c.W.externFrames[ek]; isExt {
 			c.W.noteAssumed("extern " + name + " leaves the verified heap unchanged, result unconstrained: " + why)
 			c.allocFrame(st)
 			if rt := resultType(common); rt != nil {
@@ -204,6 +205,15 @@ func (f *Frame) assumeFreshIn(st *State, v *Val, lo int) {
 	}
 }
 
+// scopePkg: the package (relative directory) of the function under verification.
+func (f *Frame) scopePkg() string {
+	top := f.topFrame()
+	if top.fn != nil && top.fn.Pkg != nil {
+		return shortPkg(top.fn.Pkg.Pkg.Path())
+	}
+	return ""
+}
+
 // calleeLabel: a printable name of the called function or method.
 func calleeLabel(common *ssa.CallCommon) string {
 	if common.IsInvoke() {
@@ -279,22 +289,23 @@ func (f *Frame) callStatic(st *State, site ssa.CallInstruction, common *ssa.Call
 	if m, ok := c.W.models[key]; ok {
 		return m(f, st, site, args)
 	}
-	if why, ok := c.W.externFrames[key]; ok && c.W.externPure[key] && len(args) > 0 {
+	ek, isExt := c.W.externKey(f.scopePkg(), key)
+	if why := c.W.externFrames[ek]; isExt && c.W.externPure[ek] && len(args) > 0 {
 		c.W.noteAssumed("extern " + key + " is a pure accessor (its result is a function of the receiver and arguments): " + why)
 		if r := c.pureExtern(key, args[0], args[1:], resultType(common)); r != nil {
 			return r
 		}
 	}
-	if why, ok := c.W.externFrames[key]; ok {
+	if why := c.W.externFrames[ek]; isExt {
 		c.W.noteAssumed("extern " + key + " leaves the verified heap unchanged, result unconstrained: " + why)
 		lo := birthBase + c.nextObj + 1
 		c.allocFrame(st)
 		if rt := resultType(common); rt != nil {
 			r := c.freshVal("ext."+callee.Name(), rt)
-			if c.W.externFresh[key] {
+			if c.W.externFresh[ek] {
 				f.assumeFreshIn(st, r, lo)
 			}
-			if c.W.externOld[key] {
+			if c.W.externOld[ek] {
 				f.assumeOldBelow(st, r, lo)
 			}
 			return r
